@@ -12,6 +12,7 @@ c (added)  the limit is tested on the reported mismatch itself (guard on the pat
 
 c-options (round 3)  search radius, delta-v limit and ballistic tolerance of the call reach the backend request (create_problem + to_backend_inputs interpreted)
 c-options (round 4)  crossing direction of the connection configuration (not the section's own field), the configured section normal, and the clouds untrimmed reach the extraction / the backend request
+e (round 5)  at result level: point2d is equidistant (d/2) from the two local segments - the fallback (a cloud of one point) included
 """
 from __future__ import annotations
 
@@ -385,6 +386,26 @@ def _bcd_backend_inner(chk):
             i, j = int(S(r.attrs["index_u"])), int(S(r.attrs["index_s"]))
             if int(S(r.attrs["trajectory_index_u"])) != 10 + i or int(S(r.attrs["trajectory_index_s"])) != 20 + j:
                 ok_c, detail = False, "trajectory indices are not those of the paired points"
+        # e: the reported meeting point is the midpoint of the closest points of the two local segments (point -> its nearest neighbour in its own cloud;
+        # a cloud of one point has the point itself as its "segment").  m is that midpoint iff dist(m, seg_u) = dist(m, seg_s) = dist(seg_u, seg_s) / 2.
+        def _nn(P_, k_):
+            others = [(sum((R(a_) - R(b_)) ** 2 for a_, b_ in zip(P_[k_], q_)), idx_) for idx_, q_ in enumerate(P_) if idx_ != k_]
+            return min(others)[1] if others else k_
+        bad_pt = []
+        for r in results:
+            i, j = int(S(r.attrs["index_u"])), int(S(r.attrs["index_s"]))
+            # documented fallback: when either point has no neighbour in its own cloud there is no local segment to refine on, and both "segments" are the paired nodes
+            lone = len(PU) < 2 or len(PS) < 2
+            a0, a1 = [R(x) for x in PU[i]], [R(x) for x in PU[i if lone else _nn(PU, i)]]
+            b0, b1 = [R(x) for x in PS[j]], [R(x) for x in PS[j if lone else _nn(PS, j)]]
+            pt = r.attrs.get("point2d")
+            m = [sp.nsimplify(S(pt[0])), sp.nsimplify(S(pt[1]))] if pt is not None else None
+            d2 = _ref_closest(a0, a1, b0, b1)
+            if m is None or _ref_closest(m, m, a0, a1) != d2 / 4 or _ref_closest(m, m, b0, b1) != d2 / 4:
+                bad_pt.append(((i, j), m, f"segments {a0}-{a1} / {b0}-{b1}, distance^2 {d2}"))
+        chk.check(not bad_pt, "C19.e", c0 + "[meeting point]",
+                  f"a reported meeting point is not the midpoint of the closest points of the two local section segments: {bad_pt[:2]}",
+                  sample=f"{name}: point2d equidistant (d/2) from both local segments for {len(results)} result(s)", nontrivial=bool(results))
         chk.check(ok_c, "C19.c", c0 + "[mismatch]", f"a reported connection is inconsistent: {detail}",
                   sample=f"{name}: {len(results)} result(s): delta_v == ||state_u[3:6]-state_s[3:6]||, <= dv_tol, label by bal_tol, indices of the pair")
         # pairs: every reported pair is a mutual nearest neighbour within the radius; every such pair below dv_tol is reported
